@@ -208,7 +208,10 @@ func judge(sc clientx.Sc, run clientx.Run, c Case, res *ev.Result) (nontrivial b
 		max = 256
 	}
 	_ = rtu
-	oversize := total > max
+	// oversize: the client was handed more than its limit - or the stream held more than the limit and the client simply
+	// did not take it (a client that caps its read window at the limit can never see the excess, and then reports a
+	// parse error instead of the too-long error)
+	oversize := total > max || (strings.HasPrefix(c.Fault, "oversize-b") && lastFired)
 	// The total read timer is armed after the write (the serial client first sleeps 30 ms). The call "timed out" when the
 	// clock passed that deadline while the line was silent (last transport read was empty).
 	deadline := readTimeout
@@ -332,8 +335,14 @@ func mkCase(sc clientx.Sc, fault string, p, cuts int) Case {
 
 func execute(sc clientx.Sc, c Case, x *explore.Ctx) clientx.Run {
 	x.SetBudget("cut", c.Cuts)
-	return clientx.Execute(sc.Scenario, sc.Q, &faulty{c: x, kind: sc.Kind, fault: c.Fault, p: c.Prefix}, opts(c))
+	f := &faulty{c: x, kind: sc.Kind, fault: c.Fault, p: c.Prefix}
+	run := clientx.Execute(sc.Scenario, sc.Q, f, opts(c))
+	lastFired = f.fired
+	return run
 }
+
+// lastFired: did the fault policy of the most recent execution reach its fault (executions are sequential per process)
+var lastFired bool
 
 func run(tier string, shard, nsh int, res *ev.Result) {
 	thorough := tier == "thorough"
